@@ -361,8 +361,12 @@ def ioprio_c_facts(src):
         defs["IOPRIO_PRIO_MASK"] = (1 << shift) - 1
     body = c_function(src, "psutil_proc_ioprio_set")
     use = re.search(r"ioprio\s*=\s*IOPRIO_PRIO_VALUE\s*\(\s*ioclass\s*,\s*iodata\s*\)\s*;", body)
-    if not use or not re.search(r"_Py_PARSE_PID\s*\"ii\"\s*,\s*&pid\s*,\s*&ioclass\s*,\s*&iodata", body):
+    um = re.search(r"_Py_PARSE_PID\s*\"([a-zA-Z]{2})\"\s*,\s*&pid\s*,\s*&ioclass\s*,\s*&iodata", body)
+    use = use or re.search(r"ioprio\s*=\s*\(\s*int\s*\)\s*IOPRIO_PRIO_VALUE\s*\(\s*ioclass\s*,\s*iodata\s*\)\s*;", body)
+    if not use or not um:
         raise NotRecognised("psutil_proc_ioprio_set not recognised")
+    units = "i" + um.group(1)                     # _Py_PARSE_PID = "i" (pid_t is 32-bit, see pidBits)
+    unsigned = {"ioclass": units[1] in "IkKHB", "iodata": units[2] in "IkKHB"}
     pre = body[:use.start()]
     excs = set()
 
@@ -377,6 +381,8 @@ def ioprio_c_facts(src):
             hi = re.search(r"\b%s\s*>\s*([^|&]+?)\s*(?:\|\||$)" % var, cond)
             if lo and hi:
                 return (c_eval(lo.group(1), defs), c_eval(hi.group(1), defs))
+            if hi and unsigned[var]:
+                return (0, c_eval(hi.group(1), defs))      # an unsigned variable needs no lower bound
             if lo or hi:
                 raise NotRecognised("one-sided range check on %s" % var)
         if re.search(r"\b%s\s*[<>]" % var, pre):
@@ -385,7 +391,7 @@ def ioprio_c_facts(src):
     g1, g2 = guard("ioclass"), guard("iodata")
     if len(excs) > 1 or (excs and not excs <= {"ValueError", "OSError"}):
         raise NotRecognised("range check raises %s" % sorted(excs))
-    return shift, g1, g2, excs == {"OSError"}
+    return shift, g1, g2, excs == {"OSError"}, units
 
 
 def ionice_py_facts(tree):
@@ -453,6 +459,38 @@ def ionice_py_facts(tree):
     if not call_seen or novalue is None or vrange is None:
         raise NotRecognised("ionice_set shape not recognised")
     return novalue, vrange, cguard
+
+
+def parse_formats(snap):
+    """(C function, format) of EVERY PyArg_ParseTuple call in the C files of the Linux build — total: a format that is
+    not made of string literals / _Py_PARSE_PID is reported verbatim (and then fails the obligation)."""
+    out = []
+    for rel in LINUX_C:
+        try:
+            src = c_source(snap, rel)
+        except OSError:
+            continue
+        for m in re.finditer(r"PyArg_ParseTuple(?:AndKeywords)?\s*\(", src):
+            depth, i = 1, m.end()
+            while i < len(src) and depth:
+                depth += {"(": 1, ")": -1}.get(src[i], 0)
+                i += 1
+            args = src[m.end():i - 1]
+            parts = args.split(",")
+            raw = parts[1].strip() if len(parts) > 1 else ""
+            toks = re.findall(r"_Py_PARSE_PID|\"[^\"]*\"", raw)
+            if toks and re.sub(r"_Py_PARSE_PID|\"[^\"]*\"|\s", "", raw) == "":
+                fmt = "".join("i" if t == "_Py_PARSE_PID" else t.strip('"') for t in toks)
+            else:
+                fmt = "?" + re.sub(r"\s+", "", raw)
+            # enclosing function: the last `name(...) {` at column 0 before the call
+            fn = "?"
+            for mm in re.finditer(r"^(\w+)\s*\([^;{}]*\)\s*\{", src[:m.start()], re.M):
+                fn = mm.group(1)
+            out.append((fn, fmt))
+    if not out:
+        raise NotRecognised("no PyArg_ParseTuple call found")
+    return sorted(out)
 
 
 # ---------------------------------------------------------------------------------- IFF table
@@ -589,6 +627,11 @@ def facts(snap, F):
 
     ic = lambda: memo("ioprio_c", lambda: ioprio_c_facts(proc_c()))
     ip = lambda: memo("ioprio_py", lambda: ionice_py_facts(pslinux()))
+    F.try_add("ioprioSetUnits", "String", lambda: lean_str(ic()[4]),
+              "psutil_proc_ioprio_set: PyArg_ParseTuple format units of (pid, ioclass, iodata), _Py_PARSE_PID written as i")
+    F.try_add("parseFormats", "List (String × String)",
+              lambda: lean_list(parse_formats(snap), lambda p: "(%s, %s)" % (lean_str(p[0]), lean_str(p[1]))),
+              "every PyArg_ParseTuple call of the Linux build: (C function, format string; _Py_PARSE_PID written as i)")
     F.try_add("ioprioShift", "Nat", lambda: lean_nat(ic()[0]), "IOPRIO_CLASS_SHIFT")
     F.try_add("ioprioCGuard", "Option (Int × Int)", lambda: lean_opt_pair(ic()[1]), "C-side range check on ioclass before the shift")
     F.try_add("ioprioCDataGuard", "Option (Int × Int)", lambda: lean_opt_pair(ic()[2]), "C-side range check on iodata")
